@@ -430,3 +430,53 @@ def check_pollfd_index(ctx, rid, prog):
                       '`%s` (= the number of entries when it was taken) is the position of the entry pushed for %s' % (idx['n'], sorted(subject)),
                       witness=None if r is None else {'blocks': r[0]})
     return n
+
+
+def all_clean_loops(prog, cn):
+    """Loops of Plan::CleanNode over the regular inputs of the dependent edge ([begin, end - order_only)) that can only
+    go round while the element is clean: leaving such a loop through its condition means "no regular input is dirty"
+    (what `find_if(begin, end, dirty) == end` / `none_of` say in one call)."""
+    from rules import loops_over, loop_blocks
+    out = []
+    for l in loops_over(cn, 'Edge::inputs_'):
+        if l['full'] or 'Edge::order_only_deps_' not in (l.get('bound') or ''):
+            continue
+        body = loop_blocks(cn, l)
+        seen, st, escapes = set(), [l['body']], False
+        while st:
+            b = st.pop()
+            if b in seen or b not in body:
+                continue
+            seen.add(b)
+            for i, s2 in enumerate(cn.blocks[b]['succ']):
+                if s2 is None:
+                    continue
+                if any(pol is False and (mentions_field(a, 'Node::dirty_') or mentions_call(a, 'Node::dirty')) and
+                       strip(a).get('k') in ('mem', 'call') for k, pol, a in cn.edge_facts(b, i)):
+                    continue        # this way the element is known clean
+                if s2 == l['header']:
+                    escapes = True
+                st.append(s2)
+        if not escapes and len(seen) >= 1:
+            out.append(l)
+    return out
+
+
+def all_clean_base(prog, cn):
+    """Leaf predicate for rules.justified(): the condition says "every regular input of the edge is clean"."""
+    loops = all_clean_loops(prog, cn)
+
+    def base(g, a, pol):
+        a = strip(a)
+        if not isinstance(a, dict):
+            return False
+        s = dstr(a)
+        if pol and 'find_if' in s and 'end' in s.split('find_if')[-1]:
+            return True
+        if (pol and 'none_of' in s) or (pol is False and 'any_of' in s):
+            return True
+        if pol and a.get('k') == 'call' and (a.get('op') == '==' or 'operator==' in (a.get('name') or '')):
+            ops = ([a['recv']] if a.get('recv') is not None else []) + list(a.get('args') or [])
+            return any(isinstance(strip(o), dict) and strip(o).get('k') == 'var' and strip(o).get('n') == l['var'] for o in ops for l in loops)
+        return False
+    return base
